@@ -1,3 +1,4 @@
+import NLE.Gen.Shape
 import NLE.Gen.Locks
 import NLE.Model.LockSem
 /-!
@@ -67,6 +68,10 @@ theorem mutex_orders_conflicting_accesses {s1 s2 : LockSem.LS} {g1 g2 : Nat} (in
     (hex : LockSem.holdsW s1 g1 ∨ LockSem.holdsW s2 g2) :
     ∃ a r b q c, mid = a ++ r :: (b ++ q :: c) ∧ LockSem.isRelBy g1 r ∧ LockSem.isAcqBy g2 q :=
   LockSem.conflicting_accesses_ordered inv mid hrun h1 h2 hne hex
+
+/-- Shared memory that is not a field of the three structs: no goroutine started by a `go` statement assigns a variable
+    of the function that started it (results come back over channels).  Regenerated from the source on every run. -/
+theorem no_closure_writes_to_outer_variables : Gen.goClosureOuterWrites = [] := by decide +kernel
 
 /-! Non-vacuity of the ordering lemma: writer 1, then reader 2. -/
 example : LockSem.run {} [.acqW 1, .acc 1 true, .relW 1, .acqR 2, .acc 2 false] = some { writer := none, readers := [2] } := by decide
